@@ -37,6 +37,10 @@ func (pc *parentController) syncRollingUpdate(parentRevisions []*parentRevision,
 	// Give the latest revision any children it desires that aren't claimed yet,
 	// or that don't need any changes to match the desired state.
 	latest := parentRevisions[0]
+	if latest.syncResult.Status == nil {
+		// The hook may omit status; the rollout condition still needs a place to go.
+		latest.syncResult.Status = make(map[string]interface{})
+	}
 	for gvk, objects := range latest.desiredChildMap {
 		// Ignore the API version, because the 'claimed' map is version-agnostic.
 		apiGroup := gvk.Group
